@@ -350,3 +350,9 @@ Print Assumptions hist_index_exact.
 Print Assumptions hist_index_rebuild.
 Print Assumptions hist_unique.
 Print Assumptions hist_update_dup_iff.
+
+(* IndexView.DropOneWithKey is a drop by name (Model/Driver.v drop_by_key_call):
+   every statement about histories of `step` calls covers it *)
+Lemma drop_by_key_is_drop_by_name ds sid h key :
+  exists name, drop_by_key_call ds sid h key = CDropIndex sid h name.
+Proof. unfold drop_by_key_call. eexists. reflexivity. Qed.
